@@ -282,7 +282,7 @@ func c02Run(c C02Case) c02Result {
 		spec.Requests = append(append([]world.RequestSpec(nil), spec.Requests...), *c.Seed)
 		big := stdUser(7)
 		big.UserID, big.LoginName = "uid-big", "loginbig@users.example"
-		big.Custom = append(big.Custom, world.CustomAttr{Name: "groups", Values: bigValues(300, "c02")})
+		big.Custom = append(big.Custom, world.CustomAttr{Name: "groups", Values: bigValues(900, "c02")})
 		spec.Users = append(append([]world.UserSpec(nil), spec.Users...), big)
 	}
 	if s.PersistFault {
